@@ -335,12 +335,12 @@ pub fn replay(ctx: &Ctx, doc: &serde_json::Value) -> i32 {
 }
 
 /// developer aid: `rqsim prof <profile> <n>` prints the slowest runs of a small batch
-pub fn prof(profile: Profile, n: u64, seed: u64) {
+pub fn prof(profile: Profile, n: u64, seed: u64, max_k: u32) {
     let oracles = oracles_for(profile);
     let mut rows = vec![];
     for run in 0..n {
         let t = std::time::Instant::now();
-        let out = simulate(run_seed(seed, stream_of(profile), run), profile, oracles, false, 400);
+        let out = simulate(run_seed(seed, stream_of(profile), run), profile, oracles, false, max_k);
         let dt = t.elapsed().as_secs_f64();
         let o = out.scenario.setup.oti;
         rows.push((dt, run, o, out.scenario.setup.receivers.len(), out.scenario.events.len(), out.scenario.setup.replicas.clone()));
